@@ -20,6 +20,7 @@ DevAsIs == {"LoadDataTableMutableWithinPage", "NestedInvokeSharesLoadedModules"}
 AsIs == INSTANCE ContextInvoke WITH Dev <- DevAsIs
 DevShared == DevAsIs \cup {"NestedSharesCallerEnv"}
 Shared == INSTANCE ContextInvoke WITH Dev <- DevShared
+KeptLim == INSTANCE ContextInvoke WITH Dev <- {"TimeLimitKept"}
 Data == JsonDeserialize(IOEnv.TRACE_FILE)
 Hists == Data.hists
 Progs == Data.progs       \* [case |-> [pre, prog, post], got |-> [pre, prog, post]]
@@ -31,9 +32,10 @@ TSpec == TInit /\ [][TNext]_n
 Verdict(i) ==
   LET h == Hists[i]
       ks == KindsOf(h)
-  IN \E exp \in {Ideal!Outcomes(ks)} : \E kp \in {Kept!Outcomes(ks)} :
+  IN \E exp \in {Ideal!Outcomes(ks)} : \E kp \in {Kept!Outcomes(ks)} : \E kl \in {KeptLim!Outcomes(ks)} :
        PrintT(<<"CASE", ToJson([i |-> i, bad |-> {j \in 1..Len(h) : h[j] # exp[j]}, exp |-> exp, asis |-> AsIs!Outcomes(ks),
-                                 law |-> Ideal!MeetsDemand(ks), keptExplains |-> (kp = h /\ kp # exp)])>>)
+                                 law |-> Ideal!MeetsDemand(ks), keptExplains |-> (kp = h /\ kp # exp),
+                                 limKeptExplains |-> (kl = h /\ kl # exp)])>>)
 NVerdict(j) ==
   LET c == Progs[j].case
       got == Progs[j].got
